@@ -101,11 +101,73 @@ def formatAttrName (anchor : Bool) (s : Seg) : Text := formatAttrNameWith anchor
 def formatNPath (anchor : Bool) (p : Text) : Except Err (List Text) :=
   (parseNPath anchor p).map (·.map (formatAttrName anchor))
 
+/-! ### how lookups compare name tokens (`expressions/binding.py`) -/
+
+/-- `_NIX_IDENTIFIER_RE` : `[A-Za-z_][A-Za-z0-9_'\-]*\Z` (the bare names Nix accepts: the NPath
+    identifier class plus `-` after the first character), as sorted code point ranges; the translator
+    re-extracts both classes (`Props/C12.lean: tie_name_start / tie_name_rest`). -/
+def nameStartRanges : List (Nat × Nat) := [(65, 90), (95, 95), (97, 122)]
+def nameRestRanges : List (Nat × Nat) := [(39, 39), (45, 45), (48, 57), (65, 90), (95, 95), (97, 122)]
+def nameIdentStart (c : Char) : Bool := inRanges nameStartRanges c.toNat
+def nameIdentRest (c : Char) : Bool := inRanges nameRestRanges c.toNat
+def nameIdent : Text → Bool
+  | [] => false
+  | c :: cs => nameIdentStart c && cs.all nameIdentRest
+
+/-- `_STRING_ESCAPES` (re-extracted: `tie_name_escapes`) -/
+def nameEscapes : List (Char × Char) := [('n', '\n'), ('r', '\r'), ('t', '\t')]
+/-- `_STRING_ESCAPES.get(following, following)` -/
+def nameUnesc (c : Char) : Char :=
+  match nameEscapes.lookup c with
+  | some r => r
+  | none => c
+
+/-- the `while index < len(body)` loop of `_decode_attr_name`; `none` is the early `return None`
+    (interpolation, unescaped quote, dangling backslash). The first argument bounds the number of
+    iterations (every iteration advances `index`, so `len(body) + 1` is never reached); it makes the
+    recursion structural, so that closed instances reduce (`decide`). -/
+def decodeNameBodyF : Nat → Text → Option Text
+  | 0, _ => none
+  | _ + 1, [] => some []
+  | n + 1, c :: rest =>
+    if c = '\\' then
+      match rest with
+      | [] => none
+      | e :: more => (decodeNameBodyF n more).map (nameUnesc e :: ·)
+    else if c = '"' then none
+    else
+      match rest with
+      | [] => some [c]
+      | f :: more =>
+        if c = '$' ∧ f ≠ '"' ∧ f ≠ '\\' then
+          if f = '{' then none else (decodeNameBodyF n more).map (fun r => c :: f :: r)
+        else (decodeNameBodyF n (f :: more)).map (c :: ·)
+
+def decodeNameBody (s : Text) : Option Text := decodeNameBodyF (s.length + 1) s
+
+/-- `_decode_attr_name(token)`: the name Nix reads from a name token, `none` when it is not static
+    or not a single name token -/
+def decodeAttrName (tok : Text) : Option Text :=
+  match tok with
+  | '"' :: rest =>
+      if rest.getLast? = some '"' then decodeNameBody rest.dropLast
+      else if nameIdent tok then some tok else none
+  | _ => if nameIdent tok then some tok else none
+
+/-- `_same_attr_name(left, right)` (both arguments are strings here) -/
+def sameName (a b : Text) : Bool :=
+  a == b || (match decodeAttrName a with
+    | some n => decodeAttrName b == some n
+    | none => false)
+
 /-- `_segment_name` -/
 def segmentName (s : Text) : Text :=
-  match s with
-  | '"' :: rest => if s.getLast? = some '"' then rest.dropLast else s
-  | _ => s
+  match decodeAttrName s with
+  | some n => n
+  | none =>
+    match s with
+    | '"' :: rest => if s.getLast? = some '"' then rest.dropLast else s
+    | _ => s
 
 /-- SPEC. How Nix reads an attribute-name token as written in a file: a bare identifier
     (Nix identifiers additionally allow `-` after the first character) or a `"…"` string without
